@@ -372,6 +372,47 @@ Proof.
   apply chain_lo with (n := fst sf) (d := snd sf) (n' := fst x) (d' := snd x); try lia.
 Qed.
 
+
+(* f >= (1-u) a/c,  g <= (1+u) b/l,  f <= g   ==>   (1-u) a l <= (1+u) b c *)
+Lemma gap (f g : fl) a c b l :
+  0 < snd f -> 0 < snd g -> 0 < c -> 0 < l -> 0 <= fst g ->
+  (U - 1) * a * snd f <= fst f * c * U ->
+  fst g * l * U <= (U + 1) * b * snd g ->
+  fle f g ->
+  (U - 1) * (a * l) <= (U + 1) * (b * c).
+Proof.
+  intros Hdf Hdg Hc Hl Hng H1 H2 H3. unfold fle in H3. pose proof U_pos as HU.
+  apply Z.mul_le_mono_pos_r with (p := snd f * snd g); [nia|].
+  apply Z.le_trans with (fst f * c * U * (snd g * l)).
+  - replace ((U - 1) * (a * l) * (snd f * snd g)) with ((U - 1) * a * snd f * (snd g * l)) by ring.
+    apply Z.mul_le_mono_nonneg_r; [nia | exact H1].
+  - apply Z.le_trans with (fst g * snd f * (c * U * l)).
+    + replace (fst f * c * U * (snd g * l)) with (fst f * snd g * (c * U * l)) by ring.
+      apply Z.mul_le_mono_nonneg_r; [nia | exact H3].
+    + replace (fst g * snd f * (c * U * l)) with (fst g * l * U * (snd f * c)) by ring.
+      replace ((U + 1) * (b * c) * (snd f * snd g)) with ((U + 1) * b * snd g * (snd f * c)) by ring.
+      apply Z.mul_le_mono_nonneg_r; [nia | exact H2].
+Qed.
+
+Lemma fle_refl (a : fl) : fle a a.
+Proof. unfold fle; lia. Qed.
+
+(* from the two-sided error bounds to "within one pixel below the exact scaling" *)
+Lemma within_one_from_bounds a c v t :
+  0 < c -> 0 <= a -> 0 <= v -> a * v < 2 ^ 48 ->
+  t * c * (U * U) <= (U + 1) * (U + 1) * (a * v) ->
+  (U - 1) * (U - 1) * (a * v) < (t + 1) * c * (U * U) ->
+  scaled_within_one a c v t = true.
+Proof.
+  intros Hc Ha Hv B H1 H2. unfold scaled_within_one.
+  assert (0 <= a * v) by nia.
+  set (N := a * v) in *. set (M := t * c) in *.
+  replace ((t + 1) * c) with (M + c) in * by (unfold M; ring).
+  change (2 ^ 48) with 281474976710656 in B.
+  unfold U in *. change (2 ^ 53) with 9007199254740992 in *.
+  apply andb_true_intro; split; apply Z.leb_le; lia.
+Qed.
+
 (* ------------------------------------------------------------------ the branches of resizeImage *)
 
 Definition dom (x : Z) : Prop := 0 < x < 2 ^ 24.
@@ -491,4 +532,172 @@ Section Resize.
     pose proof (product_rel sf v S2 S1 Hv) as [Hd [Hn _]].
     apply f_trunc_nonneg; assumption.
   Qed.
+
+  Lemma fits_box_s :
+    exists nw nh, resize_dims wPix hPix w h cw ch = RDims nw nh /\
+                  0 <= nw /\ 0 <= nh /\ ceil_div nw cw <= w /\ ceil_div nh ch <= h.
+  Proof.
+    rewrite resize_dims_eq.
+    destruct ((columns <=? w) && (lines <=? h)) eqn:E.
+    - exists wPix, hPix. unfold dom in *. split; [reflexivity|].
+      apply andb_prop in E. destruct E as [E1 E2]. apply Z.leb_le in E1, E2.
+      repeat split; try lia; assumption.
+    - eexists; eexists; split; [reflexivity|].
+      pose proof (trunc_nonneg wPix (dom_U _ DwPix)). pose proof (trunc_nonneg hPix (dom_U _ DhPix)).
+      unfold dom in *.
+      repeat split; try assumption.
+      + apply ceil_div_le; [assumption | lia | apply width_fits].
+      + apply ceil_div_le; [assumption | lia | apply height_fits].
+  Qed.
+
+  (* ---------------- never upscales *)
+
+  Lemma sf_le_one : (columns <=? w) && (lines <=? h) = false -> fst sf <= snd sf.
+  Proof.
+    intros E. pose proof sf_min as [S1 [S2 [SX SY]]].
+    pose proof sfX_rel as [X1 [X2 [X3 _]]]. pose proof sfY_rel as [Y1 [Y2 [Y3 _]]].
+    pose proof columns_dom as [[C1 C2] _]. pose proof lines_dom as [[L1 L2] _].
+    pose proof (dom_U _ Dw) as Uw. pose proof (dom_U _ Dh) as Uh.
+    unfold fle in SX, SY. change (2 ^ 24) with 16777216 in *.
+    apply andb_false_iff in E. destruct E as [E | E]; apply Z.leb_gt in E.
+    - assert (K : fst sfX <= snd sfX).
+      { destruct (Z_le_gt_dec (fst sfX) (snd sfX)) as [|G]; [assumption|exfalso].
+        unfold U in *. change (2 ^ 53) with 9007199254740992 in *.
+        assert (columns * snd sfX <= 16777216 * snd sfX) by nia. nia. }
+      apply Z.mul_le_mono_pos_r with (p := snd sfX); [exact X1|]. nia.
+    - assert (K : fst sfY <= snd sfY).
+      { destruct (Z_le_gt_dec (fst sfY) (snd sfY)) as [|G]; [assumption|exfalso].
+        unfold U in *. change (2 ^ 53) with 9007199254740992 in *.
+        assert (lines * snd sfY <= 16777216 * snd sfY) by nia. nia. }
+      apply Z.mul_le_mono_pos_r with (p := snd sfY); [exact Y1|]. nia.
+  Qed.
+
+  Lemma shrink v : dom v -> fst sf <= snd sf -> f_trunc (f_mul sf (f_of_int v)) <= v.
+  Proof.
+    intros Dv Hle. pose proof sf_min as [S1 [S2 _]].
+    pose proof (trunc_up sf (1, 1) 1 1 v S2 S1 ltac:(cbn [snd]; lia) ltac:(unfold fle; cbn [fst snd]; lia) ltac:(lia)
+                  (dom_U _ Dv) ltac:(cbn [fst snd]; lia)) as T.
+    set (t := f_trunc (f_mul sf (f_of_int v))) in *.
+    unfold dom in Dv. change (2 ^ 24) with 16777216 in Dv.
+    unfold U in T. change (2 ^ 53) with 9007199254740992 in T. lia.
+  Qed.
+
+  Lemma never_upscales_s :
+    forall nw nh, resize_dims wPix hPix w h cw ch = RDims nw nh -> nw <= wPix /\ nh <= hPix.
+  Proof.
+    intros nw nh. rewrite resize_dims_eq.
+    destruct ((columns <=? w) && (lines <=? h)) eqn:E; intros H; injection H as H1 H2; rewrite <- H1, <- H2; clear H1 H2.
+    - lia.
+    - pose proof (sf_le_one E). split; apply shrink; assumption.
+  Qed.
+
+  (* ---------------- aspect *)
+
+  Lemma prod48 a b : dom a -> dom b -> a * b < 2 ^ 48.
+  Proof. unfold dom. change (2 ^ 24) with 16777216. change (2 ^ 48) with (16777216 * 16777216). nia. Qed.
+
+  (* the branch taken on the rounded factors is the branch of the exact comparison *)
+  Lemma branch_X : f_leb sfX sfY = true -> w * lines <= h * columns.
+  Proof.
+    intros E. apply f_leb_fle in E.
+    pose proof sfX_rel as [X1 [X2 [_ X4]]]. pose proof sfY_rel as [Y1 [Y2 [Y3 _]]].
+    pose proof columns_dom as [C _]. pose proof lines_dom as [L _].
+    pose proof (gap sfX sfY w columns h lines X1 Y1 ltac:(unfold dom in C; lia) ltac:(unfold dom in L; lia) Y2 X4 Y3 E) as G.
+    pose proof (prod48 h columns Dh C) as B. unfold dom in *.
+    change (2 ^ 48) with 281474976710656 in B.
+    set (A := w * lines) in *. set (B' := h * columns) in *.
+    unfold U in G. change (2 ^ 53) with 9007199254740992 in G. lia.
+  Qed.
+
+  Lemma branch_Y : f_leb sfX sfY = false -> h * columns <= w * lines.
+  Proof.
+    intros E. assert (F : fle sfY sfX).
+    { unfold fle. assert (~ fle sfX sfY) by (intros F; apply f_leb_fle in F; congruence). unfold fle in *. lia. }
+    pose proof sfX_rel as [X1 [X2 [X3 _]]]. pose proof sfY_rel as [Y1 [Y2 [_ Y4]]].
+    pose proof columns_dom as [C _]. pose proof lines_dom as [L _].
+    pose proof (gap sfY sfX h lines w columns Y1 X1 ltac:(unfold dom in L; lia) ltac:(unfold dom in C; lia) X2 Y4 X3 F) as G.
+    pose proof (prod48 w lines Dw L) as B. unfold dom in *.
+    change (2 ^ 48) with 281474976710656 in B.
+    set (A := w * lines) in *. set (B' := h * columns) in *.
+    unfold U in G. change (2 ^ 53) with 9007199254740992 in G. lia.
+  Qed.
+
+  Lemma within_X v : dom v -> f_leb sfX sfY = true ->
+    scaled_within_one w columns v (f_trunc (f_mul sf (f_of_int v))) = true.
+  Proof.
+    intros Dv E. pose proof sf_pos as P. unfold sf in *. rewrite E in *.
+    pose proof sfX_rel as [X1 [X2 [X3 X4]]]. pose proof columns_dom as [C _].
+    apply within_one_from_bounds; try (unfold dom in *; lia).
+    - apply prod48; assumption.
+    - apply trunc_up with (g := sfX); try assumption; try (unfold dom in *; lia).
+      + apply fle_refl.
+      + apply dom_U; assumption.
+    - apply trunc_lo; try assumption; try (unfold dom in *; lia). apply dom_U; assumption.
+  Qed.
+
+  Lemma within_Y v : dom v -> f_leb sfX sfY = false ->
+    scaled_within_one h lines v (f_trunc (f_mul sf (f_of_int v))) = true.
+  Proof.
+    intros Dv E. pose proof sf_pos as P. unfold sf in *. rewrite E in *.
+    pose proof sfY_rel as [X1 [X2 [X3 X4]]]. pose proof lines_dom as [C _].
+    apply within_one_from_bounds; try (unfold dom in *; lia).
+    - apply prod48; assumption.
+    - apply trunc_up with (g := sfY); try assumption; try (unfold dom in *; lia).
+      + apply fle_refl.
+      + apply dom_U; assumption.
+    - apply trunc_lo; try assumption; try (unfold dom in *; lia). apply dom_U; assumption.
+  Qed.
+
+  (* equal exact factors: being within one of one scaling is being within one of the other *)
+  Lemma within_transfer a c b l v t :
+    0 < c -> 0 < l -> a * l = b * c ->
+    scaled_within_one b l v t = true -> scaled_within_one a c v t = true.
+  Proof.
+    intros Hc Hl E H. unfold scaled_within_one in *.
+    apply andb_prop in H. destruct H as [H1 H2]. apply Z.leb_le in H1, H2.
+    assert (EQ : a * v * l = b * v * c) by (replace (a * v * l) with (a * l * v) by ring; rewrite E; ring).
+    apply andb_true_intro; split; apply Z.leb_le.
+    - apply Z.mul_le_mono_pos_r with (p := l); [exact Hl|].
+      replace (t * c * l) with (t * l * c) by ring. rewrite EQ.
+      apply Z.mul_le_mono_nonneg_r; lia.
+    - apply Z.mul_le_mono_pos_r with (p := l); [exact Hl|].
+      replace ((t + 1) * c * l) with ((t + 1) * l * c) by ring. rewrite EQ.
+      apply Z.mul_le_mono_nonneg_r; lia.
+  Qed.
+
+  Lemma aspect_s :
+    forall nw nh, resize_dims wPix hPix w h cw ch = RDims nw nh ->
+                  aspect_ok wPix hPix w h cw ch nw nh = true.
+  Proof.
+    intros nw nh. rewrite resize_dims_eq. unfold aspect_ok. fold columns lines.
+    pose proof columns_dom as [C _]. pose proof lines_dom as [L _].
+    destruct ((columns <=? w) && (lines <=? h)) eqn:E; intros H; injection H as H1 H2; rewrite <- H1, <- H2; clear H1 H2.
+    - rewrite !Z.eqb_refl. reflexivity.
+    - destruct (f_leb sfX sfY) eqn:B.
+      + pose proof (branch_X B) as BX. apply Z.leb_le in BX. rewrite BX.
+        rewrite !within_X by assumption. reflexivity.
+      + pose proof (branch_Y B) as BY.
+        destruct (w * lines <=? h * columns) eqn:T.
+        * apply Z.leb_le in T. assert (EQ : w * lines = h * columns) by lia.
+          rewrite (within_transfer w columns h lines wPix _ ltac:(unfold dom in C; lia) ltac:(unfold dom in L; lia) EQ (within_Y wPix DwPix B)).
+          rewrite (within_transfer w columns h lines hPix _ ltac:(unfold dom in C; lia) ltac:(unfold dom in L; lia) EQ (within_Y hPix DhPix B)).
+          reflexivity.
+        * rewrite !within_Y by assumption. reflexivity.
+  Qed.
 End Resize.
+
+Theorem fits_box wPix hPix w h cw ch :
+  dom wPix -> dom hPix -> dom w -> dom h -> dom cw -> dom ch ->
+  exists nw nh, resize_dims wPix hPix w h cw ch = RDims nw nh /\
+                0 <= nw /\ 0 <= nh /\ ceil_div nw cw <= w /\ ceil_div nh ch <= h.
+Proof. intros; apply fits_box_s; assumption. Qed.
+
+Theorem never_upscales wPix hPix w h cw ch nw nh :
+  dom wPix -> dom hPix -> dom w -> dom h -> dom cw -> dom ch ->
+  resize_dims wPix hPix w h cw ch = RDims nw nh -> nw <= wPix /\ nh <= hPix.
+Proof. intros; eapply never_upscales_s; eassumption. Qed.
+
+Theorem aspect_within_one wPix hPix w h cw ch nw nh :
+  dom wPix -> dom hPix -> dom w -> dom h -> dom cw -> dom ch ->
+  resize_dims wPix hPix w h cw ch = RDims nw nh -> aspect_ok wPix hPix w h cw ch nw nh = true.
+Proof. intros; eapply aspect_s; eassumption. Qed.
